@@ -2,7 +2,9 @@
 use super::Tier;
 use crate::gens::*;
 use crate::model::fp::{self, Fp};
+use crate::model::big::U256;
 use crate::model::mont;
+use std::sync::OnceLock;
 use crate::req::{Req, Resp};
 use crate::runner::Check;
 use proptest::collection::vec;
@@ -26,8 +28,66 @@ pub fn ladder_ops() -> BoxedStrategy<Req> {
     ].boxed()
 }
 
+fn mulmod(a: &U256, b: &U256, m: &U256) -> U256 {
+    a.mul_wide(b).rem(m)
+}
+fn powmod(base: &U256, e: &U256, m: &U256) -> U256 {
+    let mut r = U256::ONE;
+    let b = base.rem(m);
+    for i in (0..e.bits()).rev() {
+        r = mulmod(&r, &r, m);
+        if e.bit(i) {
+            r = mulmod(&r, &b, m);
+        }
+    }
+    r
+}
+
+/// u-coordinates with a single non-zero byte (first or last) whose point lies in a prime-order subgroup of the
+/// curve (order l) or of the twist (order l' = 2^253 - 9 - 2*(l - 2^252)), with that order
+fn sparse_targets() -> &'static Vec<(Fp, U256)> {
+    static T: OnceLock<Vec<(Fp, U256)>> = OnceLock::new();
+    T.get_or_init(|| {
+        let l = crate::model::sc::l();
+        let delta = l.wrapping_sub(&U256::ONE.shl(252));
+        let lt = U256::ONE.shl(253).wrapping_sub(&U256::from_u64(9)).wrapping_sub(&delta).wrapping_sub(&delta);
+        let mut v = vec![];
+        for pos in [31usize, 0, 16] {
+            for t in 1u8..=127 {
+                let mut b = [0u8; 32];
+                b[pos] = t;
+                let u = Fp::from_bytes(&b);
+                for m in [l, lt] {
+                    if mont::ladder(&m, 255, &u) == Fp::ZERO {
+                        v.push((u, m));
+                    }
+                }
+                if v.len() >= 24 && pos == 16 {
+                    break;
+                }
+            }
+        }
+        v
+    })
+}
+
+/// peer keys SOLVED so that the shared secret has a single non-zero byte (the first, the last or a middle
+/// one): peer = [k^-1 mod order] T. A zero test that stops one byte short sees these as zero
+/// (added after the seeded change C07e: was_contributory ignoring the last byte).
+fn dh_sparse_output() -> BoxedStrategy<Req> {
+    let n = sparse_targets().len();
+    (0..n, 0u8..4, u256_interesting()).prop_map(|(i, kind, k)| {
+        let (u, m) = &sparse_targets()[i];
+        let kc = U256::from_le(&crate::model::sc::clamp(&k));
+        let kinv = powmod(&kc, &m.wrapping_sub(&U256::from_u64(2)), m);
+        let peer = mont::ladder(&kinv, 255, u).to_bytes();
+        Req::new("x.dh", vec![vec![kind], k.to_vec(), peer.to_vec()])
+    }).boxed()
+}
+
 pub fn strategy() -> BoxedStrategy<Req> {
     prop_oneof![
+        1 => dh_sparse_output(),
         8 => (u256_interesting(), u()).prop_map(|(k, u)| Req::new("x.x25519", vec![k.to_vec(), u.to_vec()])),
         6 => (0u8..4, u256_interesting(), u()).prop_map(|(kind, k, u)| Req::new("x.dh", vec![vec![kind], k.to_vec(), u.to_vec()])),
         2 => (u256_interesting(), u256_interesting()).prop_map(|(a, b)| Req::new("x.two_party", vec![a.to_vec(), b.to_vec()])),
